@@ -57,6 +57,18 @@ func richProgram() *idl.Program {
 	return &idl.Program{Files: []*idl.File{main, inc("zeta"), inc("alpha"), inc("mid")}}
 }
 
+// namesakeProgram: main includes a/common.frugal and mid.frugal, mid includes b/common.frugal.
+func namesakeProgram() *idl.Program {
+	T := idl.T
+	fld := func(id int, n string, t *idl.Type) *idl.Field { return &idl.Field{ID: id, Name: n, Req: "default", Type: t} }
+	a := &idl.File{Name: "a/common.frugal", Decls: []*idl.Decl{{Struct: &idl.Struct{Kind: "struct", Name: "A", Fields: []*idl.Field{fld(1, "x", T("i32"))}}}}}
+	b := &idl.File{Name: "b/common.frugal", Decls: []*idl.Decl{{Struct: &idl.Struct{Kind: "struct", Name: "B", Fields: []*idl.Field{fld(1, "y", T("i32"))}}}}}
+	mid := &idl.File{Name: "mid.frugal", Decls: []*idl.Decl{{Include: "b/common.frugal"}, {Struct: &idl.Struct{Kind: "struct", Name: "M", Fields: []*idl.Field{fld(1, "b", T("common.B"))}}}}}
+	main := &idl.File{Name: "main.frugal", Decls: []*idl.Decl{{Include: "a/common.frugal"}, {Include: "mid.frugal"},
+		{Struct: &idl.Struct{Kind: "struct", Name: "Top", Fields: []*idl.Field{fld(1, "a", T("common.A")), fld(2, "m", T("mid.M"))}}}}}
+	return &idl.Program{Files: []*idl.File{main, a, b, mid}}
+}
+
 func hashTree(root string) (map[string]string, error) {
 	out := map[string]string{}
 	err := filepath.Walk(root, func(p string, info os.FileInfo, err error) error {
@@ -115,10 +127,16 @@ func runCmd(dir string, env []string, bin string, args ...string) (int, string) 
 
 func runC19(res *result) {
 	thorough := *tier == "thorough"
-	prog := richProgram()
+	rich := richProgram()
 	st := idl.Style{Sep: ",", Quote: '"'}
-	type cfg struct{ lang, opts string }
+	type cfg struct {
+		lang, opts string
+		prog       *idl.Program // nil: the rich program
+	}
 	var cfgs []cfg
+	// two files of the same base name in different directories, reached over different include
+	// paths (only for the documentation target: the code generators put both into one package)
+	cfgs = append(cfgs, cfg{"html", "", namesakeProgram()})
 	for _, t := range c11Targets {
 		for _, o := range optionSets(t, thorough) {
 			if t.lang == "java" {
@@ -131,7 +149,7 @@ func runC19(res *result) {
 					o += ",generated_annotations=undated"
 				}
 			}
-			cfgs = append(cfgs, cfg{t.lang, o})
+			cfgs = append(cfgs, cfg{t.lang, o, nil})
 		}
 	}
 	if *shard == 0 {
@@ -147,7 +165,16 @@ func runC19(res *result) {
 		if c.opts != "" {
 			gen += ":" + c.opts
 		}
-		key := func(kind string) string { return fmt.Sprintf("C19/%s/%s", kind, c.lang) }
+		prog := rich
+		if c.prog != nil {
+			prog = c.prog
+		}
+		key := func(kind string) string {
+			if c.prog != nil {
+				return fmt.Sprintf("C19/%s/%s/same-named-includes", kind, c.lang)
+			}
+			return fmt.Sprintf("C19/%s/%s", kind, c.lang)
+		}
 		base := filepath.Join(*work, fmt.Sprintf("cfg%d", ci))
 		srcA := filepath.Join(base, "srcA")
 		srcB := filepath.Join(base, "deeper", "nested", "dir", "srcB")
@@ -203,6 +230,7 @@ func runC19(res *result) {
 		decoy := filepath.Join(base, "decoy")
 		os.MkdirAll(decoy, 0o755)
 		for _, f := range prog.Files[1:] {
+			os.MkdirAll(filepath.Dir(filepath.Join(decoy, f.Name)), 0o755)
 			os.WriteFile(filepath.Join(decoy, f.Name), []byte("namespace go decoy\nstruct DecoyOnly {\n  1: i32 x\n}\n"), 0o644)
 		}
 		os.WriteFile(filepath.Join(decoy, "main.frugal"), []byte("struct DecoyMain {\n  1: i32 x\n}\n"), 0o644)
